@@ -16,6 +16,7 @@
 //!     CE:d:name CA:d:name CT:d:data CC:d:data CD:d:data CP:d:target:data CR:d:name CF:d   factories
 //!     SV:r:value set_node_value   SD:r:data set_data   AD:r:data append_data   ID:r:off:data insert_data
 //!     DD:r:off:cnt delete_data    RD:r:off:cnt:data replace_data   ST:r:off split_text   PD:r:data PI set_data
+//!     NZ:r  Element::normalize (in the view of the case: adjacent Text children are merged in the raw view only)
 //!     Q:d:expr   XPath node-set query on document d, edited tree vs re-parse of its serialisation
 //!     X:d:v      the XPath evaluator's document table of the CURRENT (edited) document d in view v
 //!                (0 raw, 1 merged text), built by the table builder of the `xpath` domain
@@ -1000,6 +1001,14 @@ fn run_op(st: &mut St, op: &str) -> Res {
             st.set_view(false);
             Res::Table(format!("x:{}:{}:{}", merged as u8, facts, t))
         }
+        // Element::normalize (returns (): the result class is always ok; a panic is caught by the caller)
+        "NZ" => match &r {
+            XmlNode::Element(e) => {
+                e.normalize();
+                Res::Unit(Ok(()))
+            }
+            _ => Res::Na,
+        },
         "Q" => {
             let d = match &r {
                 XmlNode::Document(d) => d.clone(),
